@@ -27,7 +27,8 @@ Producer: harness/layers_common.py.
 
 DTYPE (bool|int|float) is the element type of the new array.  A written value V is either a plain integer —
 a value of the layer's own dtype in that dtype's encoding (bool 0/1, int, float in quarters) — or a typed
-Python scalar `b:1`, `i:-3`, `f:10` (= 2.5) that numpy casts on the way in (lset, cset, hset, setcells).
+Python scalar `b:1`, `i:-3`, `f:10` (= 2.5) that numpy casts on the way in (lset, cset, hset, setcells, and the
+DEFAULT of create / new: `np.full`).
 `modify … OP T:V COND` with a typed operand is numpy's ufunc (or the same Python operator) with that scalar:
 the result type decides the dtype of the re-pointed layer.
 -/
@@ -163,8 +164,8 @@ structure Geo where
 def parseFlag (s : String) : Option Bool := if s = "1" then some true else if s = "0" then some false else none
 
 def parseOp (dims : List Nat) (impl : Impl) (geo : Geo) : List String → Option Op
-  | ["create", n, dt, d] => do pure (.create n (← parseDType dt) (← d.toInt?))
-  | ["new", n, dm, dt, d] => do pure (.newLayer n (← parseDims dm) (← parseDType dt) (← d.toInt?))
+  | ["create", n, dt, d] => do pure (.create n (← parseDType dt) (← parseWVal d))
+  | ["new", n, dm, dt, d] => do pure (.newLayer n (← parseDims dm) (← parseDType dt) (← parseWVal d))
   | ["attach", l] => do pure (.attach (← l.toNat?))
   | ["detach", n] => some (.detach n)
   | ["lset", l, c, v] => do pure (.layerSet (← l.toNat?) (← parseCoord c) (← parseWVal v))
